@@ -632,6 +632,10 @@ func execute(c *acfg, prog []op, miss []int, checkAll bool) *runRes {
 		for i, o := range prog {
 			cur = o
 			w.step(i, o, checkAll || i == len(prog)-1)
+			if w.invalid {
+				res.invalid = true
+				return
+			}
 			if w.v != nil {
 				w.v.desc = fmt.Sprintf("op #%d %s: %s", i, o.String(), w.v.desc)
 				res.v = w.v
@@ -643,6 +647,7 @@ func execute(c *acfg, prog []op, miss []int, checkAll bool) *runRes {
 			if p != nil {
 				res.live[i] = true
 				res.nlive++
+				res.lens[i], res.caps[i] = len(*p), cap(*p)
 			}
 		}
 		res.key = w.key()
